@@ -30,8 +30,8 @@ func init() {
 		Required:      []string{"shape:childQuery", "shape:attributeQuery", "shape:descendantQuery", "relation:count", "relation:reverse", "relation:evaluate", "relation:extra_movenext"},
 		Families: []Family{
 			witnessFamily("C12"),
-			{Name: "flat", N: tierN(150000, 2000000), Run: c12Flat},
-			{Name: "protocol", N: tierN(100000, 1500000), Run: c12Protocol},
+			{Name: "flat", N: tierN(150000, 6000000), Run: c12Flat},
+			{Name: "protocol", N: tierN(100000, 5000000), Run: c12Protocol},
 		},
 	})
 }
